@@ -744,6 +744,12 @@ func (d Desc) HCL(rng *rand.Rand) string {
 		fmt.Fprintf(&w.b, "  requests = %s\n}\n", w.listExpr(s.Requests))
 	}
 	var head strings.Builder
+	if len(w.locals) >= 2 && len(w.b.String())%3 == 0 {
+		// an earlier, smaller locals block defines the first local with another value; the block
+		// that follows redefines it (docs/eng/scenario/locals.md: later definitions replace earlier ones)
+		name := strings.SplitN(w.locals[0], " = ", 2)[0]
+		head.WriteString("locals {\n  " + name + " = \"stale value of an earlier block\"\n}\n")
+	}
 	if len(w.locals) > 0 {
 		head.WriteString("locals {\n")
 		for _, l := range w.locals {
